@@ -8,6 +8,7 @@ import (
 	"path/filepath"
 	"sync"
 	"testing"
+	"time"
 )
 
 // Native fuzz targets (go test -fuzz) run their property in worker processes whose output is discarded, so a
@@ -17,11 +18,11 @@ import (
 
 type FuzzRec struct {
 	*Rec
-	once   sync.Once
-	id     string
-	rule   string
-	nt     int64
-	nflush int64
+	once    sync.Once
+	id      string
+	rule    string
+	nt      int64
+	flushed time.Time
 }
 
 func NewFuzz(id, rule string) *FuzzRec { return &FuzzRec{id: id, rule: rule} }
@@ -46,8 +47,8 @@ func FuzzStep[C any](t *testing.T, f *FuzzRec, c C, check func(C, *Rec) []Disc) 
 	}
 	n := r.evals
 	r.mu.Unlock()
-	if n-f.nflush >= 50000 || n == 1 {
-		f.nflush = n
+	if n == 1 || (n%256 == 0 && time.Since(f.flushed) > 2*time.Second) {
+		f.flushed = time.Now()
 		f.flush()
 	}
 	un := r.Explain(ds)
